@@ -233,10 +233,13 @@ func build(t *TV) (reflect.Value, bool) {
 			kb, _ := hex.DecodeString(kv[0].(string))
 			var k reflect.Value
 			if ks := kv[0].(string); t.KK == "iface" && strings.HasPrefix(ks, "~") {
-				// keys of an interface-keyed map that are not strings: "~nil", "~int:5", "~bool:1" (the model declines these lines)
+				// keys of an interface-keyed map that are not strings: "~nil", "~ns:<hex>" (named string), "~int:5", "~bool:1" (the model declines these lines)
 				switch {
 				case ks == "~nil":
 					k = reflect.Zero(anyT)
+				case strings.HasPrefix(ks, "~ns:"): // a named-string key held in the interface
+					nb, _ := hex.DecodeString(ks[4:])
+					k = reflect.ValueOf(NString(nb))
 				case strings.HasPrefix(ks, "~int:"):
 					i, _ := strconv.Atoi(ks[5:])
 					k = reflect.ValueOf(i)
